@@ -126,6 +126,23 @@ def rename_aliases(raw, ref):
         if len(cands) == 1 and len(rivals) == 1 and cands[0] not in taken:
             out[cands[0]] = m
             taken.add(cands[0])
+    # statics (lazy tables) moved to another module unchanged: same simple name, exactly one such static; the generated type
+    # of a lazy_static carries the same path without the crate name, so that spelling is aliased too
+    rs = ref.get("statics") or {}
+    rs_paths = set(rs if isinstance(rs, list) else rs.keys())
+    scur = {x["path"] for x in raw.get("statics", [])}
+    smiss = [p for p in rs_paths if p not in scur]
+    snew = [p for p in scur if p not in rs_paths]
+    crate = raw["crate"] + "::"
+    for m in sorted(smiss):
+        name = m.rsplit("::", 1)[-1]
+        cands = [n for n in snew if n.rsplit("::", 1)[-1] == name]
+        rivals = [m2 for m2 in smiss if m2.rsplit("::", 1)[-1] == name]
+        if len(cands) == 1 and len(rivals) == 1 and cands[0] not in taken:
+            out[cands[0]] = m
+            taken.add(cands[0])
+            if cands[0].startswith(crate) and m.startswith(crate):
+                out[cands[0][len(crate):]] = m[len(crate):]
     # constants moved to another module unchanged: same simple name, type and value, exactly one such constant
     for m in sorted(cmiss):
         if m in out.values() or rc[m]["value"] is None:
